@@ -85,7 +85,7 @@ def run(job):
     amounts += [x for x in job.extra][:6]
     rlists = ratio_lists(job, quick, (KILOGRAM, GRAM))
     job.bound = (f"{len(quantized_units)} quantized + {len(plain_units)} plain "
-                 f"units x {'a seeded sample of 195 of ' if quick else ''}{len(amounts)} amounts x {len(rlists)} ratio lists "
+                 f"units x a seeded sample of {195 if quick else 1545} of {len(amounts)} amounts x {len(rlists)} ratio lists "
                  f"(length 1..{max(len(r) for r in rlists)}; int, Decimal, "
                  f"Fraction, mixed, quantities in mixed units) x disperse "
                  f"on/off x 8 default rounding modes")
@@ -96,10 +96,10 @@ def run(job):
                 continue
             W.set_mode(mode)
             work = list(itertools.product(amounts, rlists))
-            if quick:
-                # corner lists for +-10, 1 and 0.03, and a seeded sample of the rest
-                work = [(a, r) for a in amounts[:4] + amounts[5:6]
-                        for r in rlists[:9]] + rng.sample(work, 150)
+            # corner lists for +-10, 1 and 0.03, and a seeded sample of the rest
+            work = [(a, r) for a in amounts[:4] + amounts[5:6]
+                    for r in rlists[:9]] + \
+                rng.sample(work, 150 if quick else 1500)
             for amount, ratios in work:
                 if not job.mine():
                     continue
